@@ -44,7 +44,40 @@ def base_env():
     # loop invariant of find_comment (loop #0)
     env.loop('bert_e.workflow.pr_utils:find_comment', 0, inv_find_comment)
     install_reactor(env)
+    install_process(env)
     return env
+
+
+# ---------------------------------------------------------------- BertE.process: a fresh clone for every job
+PROC = 'bert_e.bert_e:BertE.process'
+
+
+def install_process(env):
+    from bert_e.bert_e import BertE
+    env.add_class('RepoStub', fields={'tmp_directory': 'opt[str]', 'cmd_directory': 'opt[str]'})
+    env.add_class('ProcSettings', fields={'backtrace': 'bool', 'quiet': 'bool'})
+    env.add_class('BertEProc', pyclass=BertE, fields={'git_repo': 'RepoStub', 'settings': 'ProcSettings'})
+
+    @env.model('RepoStub', 'reset', trusted='Repository.reset (checked natively, see extra())')
+    def reset(I, self):
+        I.ghost['trace'] = I.ghost['trace'] + (('repo_reset',),)
+
+    @env.model('BertEProc', 'dispatch', trusted='Dispatcher.dispatch: runs the handler of the job')
+    def dispatch(I, self, job):
+        I.ghost['trace'] = I.ghost['trace'] + (('dispatch',),)
+        k = I.choose_n(4, 'dispatch outcome')
+        if k == 0:
+            return SInt(I.fresh_term('handler_result', smt.INT, False))
+        cls = (X.SilentException, X.TemplateException, Exception)[k - 1]
+        raise TargetExc(I.make_exception(cls, [], {}))
+    env.allow_inline(BertE._process_error)
+    env.print_hook = lambda I, a: None
+
+
+def ens_process_resets_first(self, job, out, G):
+    # the job handler runs on a working clone reset for THIS job: the outcome cannot depend on earlier jobs
+    return (len(G.trace) >= 2 and G.trace[0] == ('repo_reset',) and G.trace[1] == ('dispatch',)
+            and len([e for e in G.trace if e == ('dispatch',)]) == 1)
 
 
 # ---------------------------------------------------------------- handle_comments
@@ -248,7 +281,10 @@ def contracts(env):
     hc = Contract(HC, args={'job': 'PullRequestJob'}, setup=trace_setup,
                   ensures=[('commands_only_in_comments_after_the_robots_last_message', ens_hc_events)],
                   covers=['return'])
-    return [fc, sc, nu, hc]
+    pr = Contract(PROC, args={'self': 'BertEProc', 'job': 'opaque'}, setup=trace_setup,
+                  ensures=[('working_clone_reset_before_the_handler_runs', ens_process_resets_first)],
+                  covers=['return'])
+    return [fc, sc, nu, hc, pr]
 
 
 # ---------------------------------------------------------------- facts
@@ -305,6 +341,9 @@ def extra(rep, tier, seed, budget):
             ok = v is None or v == -1 or v >= 1 or cls is X.PartialMerge
             facts.append(('%s.dont_repeat_if_in_history in {-1, None, n>=1}' % name, ok,
                           {'class': name, 'value': v}))
+    # F-d: Repository.reset forgets everything a previous job learnt about the remote (no other input)
+    w2 = native_repository_reset()
+    facts.append(('Repository.reset: new working directory and empty remote-branch caches', w2['ok'], w2))
     # F-c: Reactor.init_settings gives every job its own copy of every registered default (the function has
     # no other input than the option registry: run natively over the whole registry)
     w = native_init_settings()
@@ -339,6 +378,31 @@ META = {
     ],
     'trusted_base': [],
 }
+
+
+def native_repository_reset():
+    import os
+    from bert_e.lib import git as GIT
+    r = GIT.Repository('https://example.invalid/owner/repo.git')
+    problems = []
+    try:
+        r.reset()
+        first = r.tmp_directory
+        # what a job leaves behind
+        r._remote_heads['0123456789ab'].add('w/5.1/feature/x')
+        r._remote_branches['w/5.1/feature/x'] = '0123456789ab'
+        r.cmd_directory = os.path.join(first, 'repo')
+        r.reset()
+        if r.tmp_directory == first or os.path.isdir(first):
+            problems.append('working directory of the previous job is kept')
+        if r.cmd_directory != r.tmp_directory:
+            problems.append('cmd_directory still points into the previous job')
+        if len(r._remote_heads) or len(r._remote_branches):
+            problems.append('remote branch caches survive: %r %r' % (dict(r._remote_heads), r._remote_branches))
+    finally:
+        if r.tmp_directory:
+            r.delete()
+    return {'ok': not problems, 'problems': problems}
 
 
 def native_init_settings():
